@@ -19,7 +19,7 @@ LEVEL_NOTE = ('trusts the transcribed table in vf/c18.py; codes the standard cla
 RULE = ('all 65536 codes x (12 message classes + no class); a pair is non-trivial when the oracle table '
         'expects something other than the default "unknown -> failure", distinct by (command, code)')
 ASSUMPTIONS = ['status table of PS3.7 Annex C and PS3.4 B.2.3/C.4.1-C.4.3 as transcribed in this module']
-REQUIRED = ['oracle.one-class', 'oracle.table', 'oracle.int', 'oracle.add-status']
+REQUIRED = ['oracle.one-class', 'oracle.table', 'oracle.int', 'oracle.add-status', 'oracle.value-stable', 'oracle.constants']
 
 COMMANDS = ['CEchoRSPMessage', 'CStoreRSPMessage', 'CFindRSPMessage', 'CGetRSPMessage',
             'CMoveRSPMessage', 'NEventReportRSPMessage', 'NGetRSPMessage', 'NSetRSPMessage',
@@ -90,6 +90,7 @@ def run_shard(spec, tier, seed):
     res = Result()
     for code in range(0x10000):
         check_case(res, {'command': spec['command'], 'code': code})
+    check_constants(res, {'command': spec['command'], 'code': 0})
     return res
 
 
@@ -155,6 +156,18 @@ def check_case(res, case):
     if back != code:
         res.violation('int-differs', 'C18.int', 'int(Status(0x%04X, %s)) = %r' % (
             code, cname, back), case)
+    # a status object is a value: building further objects (same code, other commands) or
+    # anything else later must not change what this one says
+    if code in table or code in GENERAL_FAILURE or code % 89 == 0 or want != 'Failure':
+        res.count('oracle.value-stable')
+        for other in COMMANDS:
+            if other != cname:
+                statuses.Status(code, getattr(dimsemessages, other) if other else None)
+        again = [name for name, attr in FLAGS.items() if getattr(st, attr, None) is True]
+        if again != flags or st.status_type != flags[0] or int(st) != code:
+            res.violation('status-object-changes-afterwards', 'C18.one-class',
+                          'Status(0x%04X, %s) was %s; after the same code was looked up for other commands '
+                          'the same object says %r / %s' % (code, cname, flags[0], again, st.status_type), case)
     if code in (0x0000, 0xFF00, 0xB000, 0xC000, 0xA700, 0x0110, 0x1234):
         res.sample({'command': cname, 'code': '0x%04X' % code, 'status_type': st.status_type},
                    limit=8)
@@ -185,11 +198,23 @@ def add_status_shard():
         res.count('oracle.add-status')
         st = statuses.Status(code, command)
         res.distinct.add('add:%04X:%s' % (code, getattr(command, '__name__', None)))
+        flags = [name for name, attr in FLAGS.items() if getattr(st, attr, None) is True]
+        if flags != [st.status_type]:
+            res.violation('not-exactly-one-class', 'C18.one-class',
+                          'after add_status: Status(0x%04X, %s) of type %s has flags %r' % (
+                              code, getattr(command, '__name__', None), st.status_type, flags), case)
         if st.status_type != want:
             res.violation('registered-range-misclassified', 'C18.add-status',
                           'after add_status: Status(0x%04X, %s) is %s, expected %s' % (
                               code, getattr(command, '__name__', None), st.status_type, want), case)
-    # library constants keep their documented meaning
+    check_constants(res, case)
+    return res
+
+
+def check_constants(res, case):
+    """Library constants keep their documented meaning (also after everything else that was
+    looked up in this process)."""
+    from pynetdicom2 import statuses
     consts = {'SUCCESS': (0x0000, 'Success'), 'PROCESSING_FAILURE': (0x0110, 'Failure'),
               'C_STORE_CANNON_UNDERSTAND': (0xC000, 'Failure'),
               'C_STORE_OUT_OF_RESOURCES': (0xA700, 'Failure'),
@@ -206,8 +231,9 @@ def add_status_shard():
         if st is None:
             continue
         res.evaluations += 1
-        res.count('oracle.add-status')
-        if int(st) != code or st.status_type != want:
+        res.count('oracle.constants')
+        flags = [n for n, attr in FLAGS.items() if getattr(st, attr, None) is True]
+        if int(st) != code or st.status_type != want or flags != [want]:
             res.violation('constant-misclassified', 'C18.constants',
                           'statuses.%s is (0x%04X, %s), documented (0x%04X, %s)' % (
                               name, int(st), st.status_type, code, want), case)
